@@ -282,13 +282,14 @@ Proof.
   cbn [app contains_sub]. rewrite IH. apply orb_true_r.
 Qed.
 
-(* every statement except those of set items and moved items names the path of its level *)
+(* every statement except that of a moved item names the path of its level
+   (for a set item: the path of the set, which is the entry's key sequence) *)
 Theorem pretty_names_path verbose e :
-  is_set_kind (ekind e) = false -> ekind e <> KIterMoved ->
+  ekind e <> KIterMoved ->
   contains_sub (render (ep1 e)) (pretty_of verbose e) = true.
 Proof.
-  intros S M. unfold pretty_of.
-  destruct (ekind e); try discriminate S; try congruence;
+  intros M. unfold pretty_of.
+  destruct (ekind e); try congruence;
     try destruct (Nat.eqb verbose 2); apply contains_sub_mid.
 Qed.
 
@@ -301,7 +302,7 @@ Qed.
 Theorem pretty_per_change verbose es :
   Forall2 (fun e s => s = pretty_of verbose e /\
                       (ekind e <> KIterMoved -> s <> []) /\
-                      (is_set_kind (ekind e) = false -> ekind e <> KIterMoved -> contains_sub (render (ep1 e)) s = true))
+                      (ekind e <> KIterMoved -> contains_sub (render (ep1 e)) s = true))
           es (pretty verbose es).
 Proof.
   induction es as [|e es IH]; cbn; constructor; [|exact IH].
@@ -312,7 +313,8 @@ Qed.
 Lemma pretty_moved_empty verbose p1 p2 a b d : pretty_of verbose (mkEntry KIterMoved p1 p2 a b d) = [].
 Proof. reflexivity. Qed.
 
-(* finding C10-pretty-set-item-root: DeepDiff({'a': {1, 2}}, {'a': {1, 3}}) *)
+(* finding C10-pretty-set-item-root (fixed in 9738d10): DeepDiff({'a': {1, 2}}, {'a': {1, 3}})
+   now gives "Item root['a'][3] added to set." *)
 Definition w_hatom (a : atom) : pystr := repr_atom a.
 Definition w_set_t1 : value := VDict [(AStr (s2p "a"), VSet [AInt 1; AInt 2])].
 Definition w_set_t2 : value := VDict [(AStr (s2p "a"), VSet [AInt 1; AInt 3])].
@@ -320,14 +322,12 @@ Definition w_cfg : cfg := mkCfg false 33 100 true.
 Definition w_run (t1 t2 : value) (ops : path -> list value -> list value -> list opcode) : list entry :=
   fst (run_diff w_hatom (fun _ _ => []) ops (fun _ => false) (fun _ => false) w_cfg t1 t2).
 
-Lemma pretty_names_path_refuted :
+Example pretty_set_item_example :
   exists e, In e (w_run w_set_t1 w_set_t2 (fun _ _ _ => [])) /\ ekind e = KSetAdd /\
-            ep1 e = [PKey (AStr (s2p "a"))] /\
-            pretty_of 1 e = s2p "Item root[3] added to set." /\
-            contains_sub (render (ep1 e)) (pretty_of 1 e) = false.
+            pretty_of 1 e = s2p "Item root['a'][3] added to set.".
 Proof.
   exists (mkEntry KSetAdd [PKey (AStr (s2p "a"))] [PKey (AStr (s2p "a"))] None (Some (VAtom (AInt 3))) None).
-  split; [vm_compute; tauto|]. repeat split; vm_compute; reflexivity.
+  split; [vm_compute; tauto|]. split; vm_compute; reflexivity.
 Qed.
 
 (* ================================================================== *)
